@@ -677,6 +677,12 @@ fn process_request_obj(request: &Request, dbs: &Arc<Databases>, client: &mut Cli
                     },
                     &PermissionKind::Read,
                 )
+            } else if client.selected_db_name().map_or(false, |selected| selected != db_name) {
+                // The resolve is applied to the selected database but travels to the other nodes
+                // with the database named in the command, where it runs with the link's rights
+                Response::Error {
+                    msg: String::from("resolve must name the selected database"),
+                }
             } else {
                 // Clients resolve with the access rules of a write to that key
                 apply_if_safe_access(
